@@ -1,0 +1,58 @@
+//go:build verif
+
+// Copyright 2023 StreamNative, Inc.
+//
+// Licensed under the Apache License, Version 2.0 (the "License");
+// you may not use this file except in compliance with the License.
+// You may obtain a copy of the License at
+//
+//     http://www.apache.org/licenses/LICENSE-2.0
+//
+// Unless required by applicable law or agreed to in writing, software
+// distributed under the License is distributed on an "AS IS" BASIS,
+// WITHOUT WARRANTIES OR CONDITIONS OF ANY KIND, either express or implied.
+// See the License for the specific language governing permissions and
+// limitations under the License.
+
+package wal
+
+import "sync/atomic"
+
+// Verification harness: what happens to the memory-mapped file of a read-write segment
+// (kind = "append" | "flush" | "close"; base = base offset of the segment; offset = last entry offset of
+// the segment at that moment; fileOffset = end of the written part of the file).
+type verifSegmentHookFn func(kind string, base int64, offset int64, fileOffset uint32)
+
+var verifSegmentHook atomic.Value
+
+func SetVerifSegmentHook(f func(kind string, base int64, offset int64, fileOffset uint32)) {
+	if f == nil {
+		verifSegmentHook.Store(verifSegmentHookFn(nil))
+		return
+	}
+	verifSegmentHook.Store(verifSegmentHookFn(f))
+}
+
+func verifSegmentEvent(kind string, base int64, offset int64, fileOffset uint32) {
+	if f, ok := verifSegmentHook.Load().(verifSegmentHookFn); ok && f != nil {
+		f(kind, base, offset, fileOffset)
+	}
+}
+
+// verifEventLocked: the caller holds the segment's lock.
+func (ms *readWriteSegment) verifEventLocked(kind string) {
+	verifSegmentEvent(kind, ms.c.baseOffset, ms.lastOffset, ms.currentFileOffset)
+}
+
+// verifFlushMark: what has been written when an msync starts (last entry offset and end of the written part
+// of the file, packed); called without the segment's lock.
+func (ms *readWriteSegment) verifFlushMark() uint64 {
+	ms.RLock()
+	defer ms.RUnlock()
+	return uint64(uint32(ms.lastOffset-ms.c.baseOffset+1))<<32 | uint64(ms.currentFileOffset)
+}
+
+// verifEventFlushed: the msync that started at `mark` has succeeded.
+func (ms *readWriteSegment) verifEventFlushed(mark uint64) {
+	verifSegmentEvent("flush", ms.c.baseOffset, ms.c.baseOffset+int64(mark>>32)-1, uint32(mark))
+}
